@@ -240,7 +240,7 @@ func randDigits(r *Rng, n int) []int {
 	return d
 }
 
-var finiteLens = []int{1, 2, 5, 99, 100, 101, 199, 200, 201, 250, 300}
+var finiteLens = []int{1, 2, 4, 5, 8, 64, 99, 100, 101, 128, 199, 200, 201, 250, 256, 300}
 
 // genHist emits random histories. profile: "read" (C04), "chain" (C07), "type" (C17: v3, derive heavy), "count" (C06).
 func genHist(profile string, n int, r *Rng, emit func(Case)) {
@@ -282,7 +282,7 @@ func genHist(profile string, n int, r *Rng, emit func(Case)) {
 				g.length = 0
 			}
 		}
-		if (profile == "read" || profile == "chain") && ver == "v3" && len(raw) >= 2 && r.Intn(6) == 0 {
+		if (profile == "read" || profile == "chain" || profile == "count") && ver == "v3" && len(raw) >= 2 && r.Intn(6) == 0 {
 			// a generator-backed Number whose stream misbehaves: its digits are the longest prefix within 0-9
 			kind = "G"
 			j := r.Range(1, len(raw)-1)
